@@ -287,6 +287,35 @@ CHECKS = {
 ALL = [f"C{i:02d}" for i in range(1, 21)]
 
 
+# additions made after the third and fourth waves of independently seeded changes (DESIGN.md 9.6)
+LATER = {
+    "C01": "outputs whose directory dates, descriptor lines and csv columns are not in the customary order; 13-17 cpus, 42 (cpu, level) blocks, 8 levels.",
+    "C02": "scaled pure-number units (percent, ppm, deg, cm/m); exponents and factors as every numpy scalar type and 0-d arrays; a power block over every kind of "
+           "exponent object (dimensionless Array/Quantity, percent, equal and differing ndarray/list exponents, exponents with a dimension).",
+    "C03": "several prange regions per kernel with poisoned np.empty; windows larger than the domain; the public API on 2-3 virtual threads (block W); cells "
+           "holding inf/-inf/largest/denormal values; float32 and integer data; origin written in another unit.",
+    "C04": "2-D and 1-D outputs with levelmin 3 and 3-7 domains; predicates given as partial, callable object, bound method and def.",
+    "C05": "inputs scaled (2^11..2^17 points) until a block-parallel kernel has 2-4 iterations; limits as float32/int64/0-d/int and Quantity of float32; float32 "
+           "and integer data.",
+    "C06": "start states emptied by pop/del/clear; every hidden instance attribute is part of the canonical state.",
+    "C07": "scaled pure-number units (percent, ppm, deg, cm/m).",
+    "C08": "scaled pure-number units; results the element type cannot represent are skipped.",
+    "C09": "the same Vector in two roles (v op v, concatenate/stack/hstack/vstack of lists repeating one object).",
+    "C10": "calls that must be refused inside sequences (wrong length, incompatible unit): the destination keeps values and unit.",
+    "C11": "the public API on 2-3 virtual threads with depth resolutions the thread count does not divide (block V); special values in the column; float32/integer data.",
+    "C12": "one (cpu, level) block of 4160 cells (65640 in the thorough tier) under every kind of level predicate.",
+    "C13": "descriptors with reordered vector components; name collections as tuple, set, frozenset, dict view, ndarray.",
+    "C14": "descriptors and sink headers with components out of x,y,z order.",
+    "C15": "sortby on each group; calls that a fresh dataset refuses (unknown sort key with a level cap, missing cpu file with a box, raising predicate) followed by ordinary loads.",
+    "C16": "a single selected row must come back as one row (not 0-d).",
+    "C17": "float32 in the quick tier; differential numpy model of views of 1-, 2- and 3-d members (basic slices, index arrays, masks; Array, Vector, Datagroup "
+           "holders; one or two in-place updates of original, view or view of view); hidden instance attributes in the canonical state.",
+    "C18": "the ends of the float64 range; 'top'/'side' with the origin (and window) written in other units than the positions.",
+    "C19": "layers of different modes in every order (scatter first), from separate groups and from one group (layers sharing one Array object).",
+    "C20": "hidden instance attributes in the canonical state; the value tag is a function of the visible state.",
+}
+
+
 def main():
     checks = []
     na = []
@@ -301,6 +330,8 @@ def main():
             )
             continue
         _, cat, tech, text, note, ref = ent
+        if pid in LATER:
+            note = note + " Added after seeded waves 3-4: " + LATER[pid]
         checks.append(
             {
                 "property_id": pid,
